@@ -2,7 +2,7 @@
    processes and hash seeds (C14)."""
 import os, json, subprocess, filecmp, glob, shutil, signal
 
-FAMILIES = ["chain", "chain_bonds", "dots", "dot_rings", "branches", "comb", "comb_stereo", "brackets", "nested8"]
+FAMILIES = ["chain", "chain_bonds", "dots", "dot_rings", "branches", "comb", "comb_stereo", "brackets", "nested8", "long_branch", "tail_branch", "macrocycle", "stereo_chain"]
 SPAN_LIMIT = 64 * 1024   # bytes of stack between the shallowest and deepest follower callback, nesting <= 8
 
 
@@ -73,6 +73,59 @@ def c04_deep(run, mod):
         run.obligations.append({"name": "branches nested %d deep are read, built and traversed" % depth, "kind": "run of the implementation in a child process", "discharged": bool(ok)})
         if not ok:
             run.failing.append({"check": run.pid + ".deep_nesting", "input": "C + (C * %d + ) * %d" % (depth, depth), "observed": row, "rc": rc, "why": err[-200:]})
+
+
+LARGE_FAMILIES = ["chain", "chain_bonds", "macrocycle", "macro2", "branches_c", "tail_branch", "long_branch", "hub_then_ring", "hub_ring_first", "spiro",
+                  "rings_then_unmatched", "rings_then_duplicate", "ladder", "stereo_chain", "dot_rings", "dots", "comb", "comb_stereo", "nested8", "brackets", "branches"]
+HUBS = ("branches_c", "hub_then_ring", "hub_ring_first", "branches")      # quadratic in the degree: kept below 66 000
+# which property a failing stage of the large-molecule runner speaks about
+STAGE_OWNERS = [
+    ("read", ("C04", "C09", "C01")), ("written text is refused", ("C04", "C09", "C01")),
+    ("panics", ("C06",)), ("aborted", ("C06", "C19")),
+    ("built graph is not the denotation", ("C02", "C10")),
+    ("trace", ("C15",)),
+    ("walk", ("C11", "C06", "C01")),
+    ("traversal", ("C01", "C08", "C12", "C03")), ("written text", ("C01", "C09", "C14")), ("graph read from the written text", ("C01", "C09", "C14")),
+]
+
+
+def large_molecules(run, mod):
+    """regular molecules around the sizes where 8-, 16- and 17-bit quantities wrap, through read / trace / build / walk / write in
+       child processes; judged by the harness's reference denotation (tied to the Coq specification by the `ref` suite) and by the text fixed point"""
+    from concurrent.futures import ThreadPoolExecutor
+    sizes = [257, 65539, 70001] if run.tier == "quick" else [100, 255, 256, 257, 300, 65534, 65535, 65536, 65537, 65538, 65539, 65540, 70001, 131072, 131074, 131076, 196611, 300000]
+    jobs = [(f, n) for f in LARGE_FAMILIES for n in sizes if not (f in HUBS and n > 66000)]
+    def one(job):
+        f, n = job
+        try:
+            r = subprocess.run([os.path.join(mod.BIN, "large"), f, str(n)], stdout=subprocess.PIPE, stderr=subprocess.PIPE, text=True, timeout=900, env=mod.ENV)
+            rc, out, err = r.returncode, r.stdout, r.stderr
+        except subprocess.TimeoutExpired:
+            rc, out, err = 124, "", "timeout"
+        row = None
+        for line in out.splitlines():
+            if line.startswith("{"):
+                try: row = json.loads(line)
+                except Exception: pass
+        return f, n, rc, row, err
+    with ThreadPoolExecutor(max_workers=16) as ex:
+        rows = list(ex.map(one, jobs))
+    mine = 0; bad = 0
+    for f, n, rc, row, err in rows:
+        ok = rc == 0 and row is not None and row.get("ok")
+        stage = "ok" if ok else (row.get("stage") if row else "aborted (signal %s)" % rc)
+        owners = set()
+        for key, props in STAGE_OWNERS:
+            if key in stage: owners.update(props)
+        if not ok and not owners: owners = {"C01", "C06"}
+        if ok or run.pid in owners:
+            mine += 1
+        if not ok and run.pid in owners:
+            bad += 1
+            run.failing.append({"check": run.pid + ".large_molecule", "input": "family %s n=%d (harness/src/lib.rs: family)" % (f, n), "stage": stage, "observed": row, "rc": rc, "why": (err or "")[-200:]})
+    run.obligations.append({"name": "%d large regular molecules (%d families, sizes %s) read, traced, built, traversed, written and re-read as the reference denotation says" % (len(jobs), len(LARGE_FAMILIES), sizes),
+                            "kind": "runs of the implementation in child processes against the reference denotation", "discharged": bad == 0})
+    run.coverage["large_molecules"] = {"runs": len(jobs), "sizes": sizes, "families": LARGE_FAMILIES, "failing_for_this_property": bad}
 
 
 def big_families(run, mod):
